@@ -391,6 +391,13 @@ impl KeyExchangeClient {
 
         let response = KeyExchangeResponse::parse(&mut io).await?;
 
+        // Only adopt parameters that we actually offered to the server
+        if !self.protocols.contains(&response.protocol)
+            || !self.algorithms.contains(&response.algorithm)
+        {
+            return Err(NtsError::Invalid);
+        }
+
         let keys = NtsKeys::extract_from_connection(
             io.get_ref().1,
             response.protocol,
